@@ -6,23 +6,23 @@ from vlib import ToolError, Result, log
 
 # driver lists per property (the drivers scale with the tier themselves)
 PLAN = {
-    "C01": {"drivers": ["small", "adversarial"], "thorough_drivers": ["icase-sweep"], "models": []},
-    "C02": {"drivers": ["small-default", "near-miss"], "models": []},
-    "C03": {"drivers": ["classes"], "models": []},
+    "C01": {"models": ["pipeline"], "drivers": ["small", "adversarial"], "thorough_drivers": ["icase-sweep"]},
+    "C02": {"models": ["pipeline"], "drivers": ["small-default", "near-miss"]},
+    "C03": {"drivers": ["classes"], "models": ["class"]},
     "C04": {"drivers": ["icase-words", "icase-sweep"], "models": []},
-    "C05": {"drivers": ["small-rep", "repeats"], "models": []},
+    "C05": {"drivers": ["small-rep", "repeats"], "models": ["rep"]},
     "C06": {"drivers": ["presentation"], "models": []},
-    "C07": {"drivers": ["lattice", "front:hist"], "models": []},
-    "C08": {"drivers": ["small-anchors", "anchors"], "models": []},
-    "C09": {"drivers": ["class-sweep"], "models": []},
-    "C10": {"drivers": ["orders", "front:hist"], "models": []},
-    "C11": {"drivers": ["escape-words", "front:escsweep"], "models": []},
-    "C12": {"drivers": ["front:cli"], "models": []},
-    "C13": {"drivers": ["thresholds"], "models": []},
-    "C14": {"drivers": ["front:py"], "models": []},
-    "C15": {"drivers": ["color"], "models": []},
-    "C16": {"drivers": ["small", "stages"], "models": []},
-    "C17": {"drivers": ["front:wasm"], "models": []},
+    "C07": {"drivers": ["lattice", "front:hist"], "models": ["builder-rust"]},
+    "C08": {"models": ["pipeline"], "drivers": ["small-anchors", "anchors"]},
+    "C09": {"drivers": ["class-sweep"], "models": ["class"]},
+    "C10": {"drivers": ["orders", "front:hist"], "models": ["builder-rust"]},
+    "C11": {"drivers": ["escape-words", "front:escsweep"], "models": ["front-laws"]},
+    "C12": {"drivers": ["front:cli"], "models": ["front-laws"]},
+    "C13": {"drivers": ["thresholds"], "models": ["rep"]},
+    "C14": {"drivers": ["front:py"], "models": ["builder-py", "front-laws"]},
+    "C15": {"drivers": ["color"], "models": ["front-laws"]},
+    "C16": {"models": ["pipeline", "rep"], "drivers": ["small", "stages"]},
+    "C17": {"drivers": ["front:wasm"], "models": ["builder-wasm"]},
 }
 
 # which monitor counters count as "the property's antecedent was exercised"
@@ -96,8 +96,232 @@ def check(prop, tier, seed):
     return vlib.finish(res, t0, assumptions=ASSUME)
 
 
+PIPE_INV = ["SortInv", "TrieInv", "MinInv", "ElimInv", "FinalInv", "AnchorInv", "SymbolicInv", "Replay"]
+
+
+def model_pipeline(res, known, tier, seed):
+    """MC_Pipeline: the Level-2 transcription of the whole pipeline, as built and as designed;
+    every behaviour is replayed on the real library and its trace validated."""
+    thorough = tier == "thorough"
+    runs = [("pipeline_asbuilt", {"MaxLen": 3, "MaxSize": 4 if thorough else 3, "NAtoms": 2, "DevFinals": "TRUE"}),
+            ("pipeline_design", {"MaxLen": 3, "MaxSize": 3 if thorough else 2, "NAtoms": 2, "DevFinals": "FALSE"})]
+    if thorough:
+        runs.append(("pipeline_abc", {"MaxLen": 2, "MaxSize": 3, "NAtoms": 3, "DevFinals": "TRUE"}))
+    plans = {}
+    for tag, consts in runs:
+        m = vlib.run_model("Pipeline", constants=consts, invariants=PIPE_INV, tag=tag)
+        res.states += m["states"]
+        res.transitions += m["transitions"]
+        res.models.append({"model": "MC_Pipeline", "tag": tag, "constants": consts, "states": m["states"],
+                           "transitions": m["transitions"], "behaviours": sum(1 for o in m["objs"] if "replay" in o),
+                           "invariants": PIPE_INV, "violated": m["violated"], "action_coverage": m["coverage"]})
+        if m["violated"]:
+            # the specification itself (design or as-built transcription) violates an invariant: report it as a
+            # violation of the property only if the real code exhibits it (decided by the replay below); here: tool error
+            raise ToolError("bounded model %s violates %s" % (tag, m["violated"]))
+        if consts["DevFinals"] == "TRUE":
+            for o in m["objs"]:
+                if o.get("replay") == "pipeline":
+                    key = json.dumps(o["tcs"])
+                    plans.setdefault(key, {"tcs": o["tcs"], "runs": [], "pred": []})
+                    cfg = {"nostart": o["nostart"], "noend": o["noend"]}
+                    if cfg not in [r["cfg"] for r in plans[key]["runs"]]:
+                        plans[key]["runs"].append({"cfg": cfg})
+                        plans[key]["pred"].append(o["out"])
+    # spec -> code: run every behaviour on the real library
+    d = os.path.join(vlib.OUT, "traces", res.prop + "_mcreplay")
+    shutil.rmtree(d, ignore_errors=True)
+    os.makedirs(d)
+    planf = os.path.join(d, "plans.ndjson")
+    plist = list(plans.values())
+    with open(planf, "w") as f:
+        for p in plist:
+            f.write(json.dumps({"tcs": p["tcs"], "runs": p["runs"], "tag": "mc-replay"}) + "\n")
+    os.environ["VERIF_KEEP"] = "1"
+    stats, agg = vlib.run_driver(res, known, "file:" + planf, tier, seed)
+    del os.environ["VERIF_KEEP"]
+    # Level-2 drift: does the transcription print exactly what the code prints?
+    tdir = os.path.join(vlib.OUT, "traces", "%s_%s" % (res.prop, ("file:" + planf).replace(":", "_").replace("/", "_")))
+    idx = vlib.load_index(tdir)
+    pred = {json.dumps(sorted(p["tcs"])): p for p in plist}
+    same = diff = 0
+    examples = []
+    for key, g in idx.items():
+        p = pred.get(json.dumps(sorted(g["tcs"])))
+        if not p:
+            continue
+        for r in g["runs"]:
+            c = {"nostart": r["cfg"]["nostart"], "noend": r["cfg"]["noend"]}
+            if c in [x["cfg"] for x in p["runs"]]:
+                want = p["pred"][[x["cfg"] for x in p["runs"]].index(c)]
+                if r.get("out") == want:
+                    same += 1
+                else:
+                    diff += 1
+                    if len(examples) < 5:
+                        examples.append({"tcs": g["tcs"], "cfg": c, "model": want, "code": r.get("out")})
+    shutil.rmtree(tdir, ignore_errors=True)
+    shutil.rmtree(d, ignore_errors=True)
+    res.extra["level2_drift"] = {"behaviours_replayed": same + diff, "identical_output_strings": same,
+                                 "different_output_strings": diff, "examples": examples,
+                                 "note": "string equality with the transcription is a fidelity measure of the model, never a violation"}
+    res.exhaustive = True
+
+
+BUILDER_INV = ["OnlyDocumentedFailures", "DocumentedMessages", "CfgIsFunctionOfAncestry", "Replay"]
+MODEL_SET = ["ab", "abc", "b", "\U0001F4A9x"]
+
+
+def model_builder(front):
+    def run(res, known, tier, seed):
+        thorough = tier == "thorough"
+        consts = {"MaxOps": 5 if thorough else 4, "MaxObjs": (4 if front == "wasm" else 3) if thorough else (3 if front == "wasm" else 2),
+                  "Front": '"%s"' % front}
+        tag = "builder_" + front
+        cfgp_extra = None
+        m = vlib.run_model("Builder", constants=consts, invariants=BUILDER_INV, tag=tag)
+        if m["violated"]:
+            raise ToolError("bounded model %s violates %s" % (tag, m["violated"]))
+        hs = [o for o in m["objs"] if o.get("replay") == "history"]
+        res.states += m["states"]
+        res.transitions += m["transitions"]
+        res.models.append({"model": "MC_Builder", "tag": tag, "constants": consts, "states": m["states"],
+                           "transitions": m["transitions"], "behaviours": len(hs), "invariants": BUILDER_INV + ["Accumulate"],
+                           "action_coverage": m["coverage"]})
+        # spec -> code: execute every history on the real front end
+        d = os.path.join(vlib.OUT, "traces", res.prop + "_mcb_" + front)
+        shutil.rmtree(d, ignore_errors=True)
+        os.makedirs(d)
+        lines = []
+        for i, h in enumerate(hs):
+            ops = h["ops"]
+            if front == "rust":
+                conv = []
+                for op in ops:
+                    if op["op"] == "new":
+                        conv.append({"op": "new", "o": op["o"], "list": [] if op["n"] == 0 else MODEL_SET})
+                    elif op["op"] == "set":
+                        conv.append({"op": "set", "o": op["o"], "name": op["name"], "arg": op["arg"]})
+                    elif op["op"] == "clone":
+                        conv.append({"op": "clone", "o": op["o"], "ret": op["ret"]})
+                    else:
+                        conv.append({"op": "build", "o": op["o"]})
+                lines.append({"kind": "hist-rust", "sets": [MODEL_SET], "ops": conv})
+            elif front == "wasm":
+                arr = [] if ops[0]["n"] == 0 else [{"s": t} for t in MODEL_SET] + [None]
+                conv = [{"op": "set", "o": op["o"], "name": op["name"], "arg": op["arg"], "ret": op["ret"]} if op["op"] == "set"
+                        else {"op": "build", "o": op["o"]} for op in ops[1:]]
+                lines.append({"kind": "hist-wasm", "plan": {"h": i + 1, "array": arr, "ops": conv}})
+            else:
+                lst = [] if ops[0]["n"] == 0 else MODEL_SET
+                conv = [{"op": "new", "o": 1, "list": lst, "ctor": "init" if i % 2 else "classmethod"}]
+                conv += [{"op": "set", "o": 1, "name": op["name"], "arg": op["arg"], "ret": 1} if op["op"] == "set"
+                         else {"op": "build", "o": 1} for op in ops[1:]]
+                lines.append({"kind": "hist-py", "plan": {"h": i + 1, "list": MODEL_SET, "ops": conv}})
+        if front == "py":
+            scen, resf = os.path.join(d, "scen.json"), os.path.join(d, "res.json")
+            json.dump([l["plan"] for l in lines], open(scen, "w"))
+            vlib.run_py_driver(scen, resf)
+            for l, r in zip(lines, json.load(open(resf))):
+                l["results"] = r
+        planf = os.path.join(d, "plans.ndjson")
+        with open(planf, "w") as f:
+            for l in lines:
+                f.write(json.dumps(l) + "\n")
+        vlib.run_driver(res, known, "front:replay=" + planf, tier, seed)
+        shutil.rmtree(d, ignore_errors=True)
+    return run
+
+
+REP_INV = ["TrieSound", "TrieExact", "OnlyWidening", "MinPreserves", "SymbolicAgrees", "Replay"]
+
+
+def model_rep(res, known, tier, seed):
+    """MC_Rep: trie insertion + minimisation over counted symbols, design (no widening) and as built."""
+    thorough = tier == "thorough"
+    plans = {}
+    for tag, widen in (("rep_design", "FALSE"), ("rep_asbuilt", "TRUE")):
+        consts = {"MaxSize": 3 if thorough else 2, "MaxSyms": 2, "MaxCount": 3, "Widen": widen}
+        m = vlib.run_model("Rep", constants=consts, invariants=REP_INV, tag=tag)
+        if m["violated"]:
+            raise ToolError("bounded model %s violates %s" % (tag, m["violated"]))
+        reps = [o for o in m["objs"] if o.get("replay") == "rep"]
+        res.states += m["states"]
+        res.transitions += m["transitions"]
+        res.models.append({"model": "MC_Rep", "tag": tag, "constants": consts, "states": m["states"],
+                           "transitions": m["transitions"], "behaviours": len(reps), "invariants": REP_INV,
+                           "inputs_where_trie_is_not_exact": sum(1 for o in reps if not o["exact"]),
+                           "inputs_with_a_widened_edge": sum(1 for o in reps if o["widened"])})
+        if widen == "TRUE":
+            for o in reps:
+                plans[json.dumps(sorted(o["tcs"]))] = o["tcs"]
+    d = os.path.join(vlib.OUT, "traces", res.prop + "_mcrep")
+    shutil.rmtree(d, ignore_errors=True)
+    os.makedirs(d)
+    planf = os.path.join(d, "plans.ndjson")
+    with open(planf, "w") as f:
+        for tcs in plans.values():
+            f.write(json.dumps({"tcs": tcs, "runs": [{"cfg": {}}, {"cfg": {"rep": True}}, {"cfg": {"rep": True, "minrep": 2}}],
+                                "tag": "mc-rep-replay"}) + "\n")
+    vlib.run_driver(res, known, "file:" + planf, tier, seed)
+    shutil.rmtree(d, ignore_errors=True)
+
+
+FRONT_INV = ["LinesLaw", "LinesNoEol", "LinesEmpty", "PyLaw", "PyNoBraceLeft", "PyKeepsOtherText", "EscLaw", "EscRejects",
+             "SgrLaw", "SgrKeepsEscapedBracket", "CliLaw"]
+
+
+def model_front_laws(res, known, tier, seed):
+    """MC_Front: laws of Lines / PyRewrite / EscTok / StripSGR / CliMap over small domains (no replay: the
+    functions are bound to the code by the cli / py / escape / colour trace events that use them)."""
+    m = vlib.run_model("Front", invariants=FRONT_INV, tag="front_laws", workers=4)
+    if m["violated"]:
+        raise ToolError("bounded model front_laws violates %s" % m["violated"])
+    res.states += m["states"]
+    res.transitions += m["transitions"]
+    res.models.append({"model": "MC_Front", "states": m["states"], "transitions": m["transitions"], "laws": FRONT_INV})
+
+
+CLASS_INV = ["Contains", "LiteralOnlyIfNothingApplies", "Precedence", "Replay"]
+KIND_CHARS = {(True, True, False): ["7", "\u0663", "\U0001D7D7"], (False, True, False): ["a", "\u00e9", "_", "\u2167"],
+              (False, False, True): [" ", "\u00a0", "\t", "\u3000"], (False, False, False): ["-", "\u20ac", "\U0001F4A9", "\u00b2"]}
+FLAG_NAMES = ["digit", "nondigit", "space", "nonspace", "word", "nonword"]
+
+
+def model_class(res, known, tier, seed):
+    """MC_Class: the 4 x 64 class-conversion table; every entry is instantiated with real characters of its kind."""
+    m = vlib.run_model("Class", invariants=CLASS_INV, tag="class_table", workers=4)
+    if m["violated"]:
+        raise ToolError("bounded model class_table violates %s" % m["violated"])
+    entries = [o for o in m["objs"] if o.get("replay") == "class"]
+    res.states += m["states"]
+    res.transitions += m["transitions"]
+    res.models.append({"model": "MC_Class", "states": m["states"], "transitions": m["transitions"], "table_entries": len(entries),
+                       "invariants": CLASS_INV})
+    d = os.path.join(vlib.OUT, "traces", res.prop + "_mcclass")
+    shutil.rmtree(d, ignore_errors=True)
+    os.makedirs(d)
+    planf = os.path.join(d, "plans.ndjson")
+    by_kind = {}
+    for e in entries:
+        by_kind.setdefault((e["d"], e["w"], e["s"]), []).append(e)
+    with open(planf, "w") as f:
+        for kind, es in by_kind.items():
+            for ch in KIND_CHARS[kind]:
+                runs = [{"cfg": {n: (n in e["flags"]) for n in FLAG_NAMES}} for e in es]
+                f.write(json.dumps({"tcs": [ch], "runs": runs, "tag": "mc-class-replay"}) + "\n")
+                f.write(json.dumps({"tcs": ["x" + ch + ch, ch], "runs": runs[::3], "tag": "mc-class-replay"}) + "\n")
+    vlib.run_driver(res, known, "file:" + planf, tier, seed)
+    shutil.rmtree(d, ignore_errors=True)
+    res.exhaustive = True
+
+
+MODELS = {"front-laws": model_front_laws, "class": model_class, "rep": model_rep, "pipeline": model_pipeline, "builder-rust": model_builder("rust"), "builder-py": model_builder("py"),
+          "builder-wasm": model_builder("wasm")}
+
+
 def run_model_and_replay(res, known, m, tier, seed):
-    raise ToolError("no models yet")
+    MODELS[m](res, known, tier, seed)
 
 
 def replay(path):
